@@ -131,6 +131,10 @@ def argclass(step, prev_mdl, prev_exp):
 def collapse(a, why, cls):
     """One signature per defect: keep only the conditions that discriminate it (computed from the failing call)."""
     parts = cls.split(",")
+    hk = [x for x in parts if x.startswith("huge-")]
+    if hk:
+        # an argument at the limits of size_t/long: one signature per call and argument
+        return "%s:%s" % (a, hk[0])
     if (a == "reserve" and why in ("vals", "lens", "rejected") and "nocopy" in parts and "retype" not in parts
             and "null" not in parts and "empty" not in parts and ("shared" in parts or "imm" in parts)):
         return "reserve:content:nocopy,same-type"
@@ -223,8 +227,8 @@ def gen_histories(ck, n, steps, nh=4):
             """offset/length at the limits: SIZE_MAX-k, LONG_MAX+-k, or a value whose sum with `other` wraps into range"""
             c = [HUGE - 1, HUGE - 2, HUGE - 1 - rng.randrange(0, 9), SHUGE - 1, SHUGE, SHUGE - 2]
             if other:
-                c += [HUGE - other, HUGE - other + 1, HUGE - max(1, other - 1)]
-            return rng.choice(c)
+                c += [HUGE - other, HUGE - max(1, other - 1), HUGE - 1 - other]       # the sum wraps into 0..other
+            return min(rng.choice(c), HUGE - 1)
 
         def huge_call(h):
             """one call with an argument at the limits (refused, nothing may change)"""
